@@ -163,7 +163,7 @@ Proof.
   set (r0 := r <| r_remotes := aremove id (r_remotes r) |> <| r_nonvotings := aremove id (r_nonvotings r) |>
                <| r_witnesses := aremove id (r_witnesses r) |> <| r_pending_cc := false |>).
   assert (Hl0 : is_leader r0 = false) by exact Hl.
-  rewrite Hl0, andb_false_r. unfold leader_transfering. rewrite Hl0, andb_false_r.
+  rewrite Hl0, andb_false_r. unfold leader_transfering, gen_leaderTransfering. rewrite Hl0, andb_false_r.
   cbn [andb]. rewrite Hl0. cbn [andb]. reflexivity.
 Qed.
 
@@ -241,7 +241,7 @@ Proof.
   destruct drop; [exact H0|].
   pose proof (nw_rk _ _ H0 Hnw) as Hnw0.
   destruct (_ <? _).
-  - destruct (_ || _); [exact H0|]. cbv zeta.
+  - destruct (gen_isPreVoteMessageWithExpectedHigherTerm _ _); [exact H0|]. cbv zeta.
     destruct (is_nonvoting r0) eqn:En; [simpl; eapply rk_trans; [exact H0|apply become_nonvoting_rk]|].
     destruct (is_witness r0) eqn:Ew; [simpl; eapply rk_trans; [exact H0|apply become_witness_rk]|].
     exfalso. unfold is_nonvoting, is_witness in *. destruct Hnw0 as [H|H]; rewrite H in *; discriminate.
